@@ -15,9 +15,9 @@ import (
 
 func init() {
 	register(&propSpec{
-		ID:    "C05",
-		Level: "other",
-		Run:   runC05,
+		ID:          "C05",
+		Level:       "other",
+		Run:         runC05,
 		Explanation: "Structural necessary conditions of cache transparency on MVP-3..8: R05.1 every normal return of Run is preceded by the write-back of every cache that can be dirty (L1 before L3 where there are two levels); R05.2 when inserting a line displaces another, the bytes written back are the victim's and go to the victim's own base (value flow from the result of PushLine / PushLineWithEvictionWarning); R05.3 every base passed to PushLine* of a data cache is produced by the alignment function of that cache's line size or copied from a resident line's boundary (so resident lines cannot overlap); R05.4 a store is applied to the cache only under a presence test of all its bytes, and a line fill reads the bytes at the base the line is inserted under; R05.5 a line is inserted only under an absence test (no duplicate copy); R05.6 every per-line table is keyed through one alignment function. Does not decide 'each load returns the latest store' for arbitrary access patterns (needs C10 and values).",
 		Assumptions: []string{"the line cache itself is C13's LRU model"},
 		Trusted:     []string{"go/types", "address provenance engine (prov.go)", "role resolution"},
@@ -515,82 +515,7 @@ func runC05(r *Run) {
 			}
 		}
 
-		// ---- R05.6 per-line tables keyed through one alignment function
-		keyTags := map[*types.Var]provSet{}
-		keyPos := map[*types.Var]token.Pos{}
-		pe.fieldsNeutral = true
-		for _, f := range v.pkg.Syntax {
-			ast.Inspect(f, func(n ast.Node) bool {
-				var ix *ast.IndexExpr
-				switch x := n.(type) {
-				case *ast.IndexExpr:
-					ix = x
-				case *ast.CallExpr:
-					if id, ok := x.Fun.(*ast.Ident); ok && id.Name == "delete" && len(x.Args) == 2 {
-						ix = &ast.IndexExpr{X: x.Args[0], Index: x.Args[1]}
-					}
-				}
-				if ix == nil {
-					return true
-				}
-				sel, ok := ast.Unparen(ix.X).(*ast.SelectorExpr)
-				if !ok {
-					return true
-				}
-				s := info.Selections[sel]
-				if s == nil || s.Kind() != types.FieldVal {
-					return true
-				}
-				mt, ok := s.Obj().Type().Underlying().(*types.Map)
-				if !ok {
-					return true
-				}
-				fv := s.Obj().(*types.Var)
-				var p provSet
-				if typeName(mt.Key()) == "AlignedAddress" {
-					p = pe.of(ix.Index, 0)
-				} else if st := structOf(mt.Key()); st != nil && st.NumFields() == 2 {
-					// (core, line) keys; tables whose key also carries a request kind hold entries of several levels by design
-					for i := 0; i < st.NumFields(); i++ {
-						if typeName(st.Field(i).Type()) == "AlignedAddress" {
-							pe.fieldsNeutral = false
-							p = pe.fieldProv(st.Field(i), 0)
-							pe.fieldsNeutral = true
-							delete(p, "field")
-						}
-					}
-				}
-				if p == nil {
-					return true
-				}
-				if keyTags[fv] == nil {
-					keyTags[fv] = provSet{}
-					keyPos[fv] = ix.Pos()
-				}
-				keyTags[fv].add(p)
-				return true
-			})
-		}
-		var kf []*types.Var
-		for fv := range keyTags {
-			kf = append(kf, fv)
-		}
-		sort.Slice(kf, func(i, j int) bool { return kf[i].Name() < kf[j].Name() })
-		for _, fv := range kf {
-			p := keyTags[fv]
-			aligns := 0
-			bad := false
-			for k := range p {
-				switch {
-				case strings.HasPrefix(k, "align:"):
-					aligns++
-				case k == "boundary", k == "field":
-				default:
-					bad = true
-				}
-			}
-			r.check(aligns == 1 && !bad, "R05.6", fmt.Sprintf("%s:table(%s)", v.rel, fv.Name()), keyPos[fv], "every key of the per-line table %s comes from one alignment function (or a line boundary); provenance of the keys: {%s}", fv.Name(), p)
-		}
+		ruleTableKeys(r, "R05.6", v, pe)
 	}
 }
 
@@ -728,4 +653,85 @@ func looksUpEveryElement(info *types.Info, fd *ast.FuncDecl, paramIdx int) bool 
 		return true
 	})
 	return ok
+}
+
+// ruleTableKeys: every per-line table (a map keyed by an aligned address, or by
+// (core, aligned address)) is keyed through one alignment level.
+func ruleTableKeys(r *Run, rule string, v *variant, pe *provEngine) {
+	info := v.info
+	keyTags := map[*types.Var]provSet{}
+	keyPos := map[*types.Var]token.Pos{}
+	pe.fieldsNeutral = true
+	for _, f := range v.pkg.Syntax {
+		ast.Inspect(f, func(n ast.Node) bool {
+			var ix *ast.IndexExpr
+			switch x := n.(type) {
+			case *ast.IndexExpr:
+				ix = x
+			case *ast.CallExpr:
+				if id, ok := x.Fun.(*ast.Ident); ok && id.Name == "delete" && len(x.Args) == 2 {
+					ix = &ast.IndexExpr{X: x.Args[0], Index: x.Args[1]}
+				}
+			}
+			if ix == nil {
+				return true
+			}
+			sel, ok := ast.Unparen(ix.X).(*ast.SelectorExpr)
+			if !ok {
+				return true
+			}
+			s := info.Selections[sel]
+			if s == nil || s.Kind() != types.FieldVal {
+				return true
+			}
+			mt, ok := s.Obj().Type().Underlying().(*types.Map)
+			if !ok {
+				return true
+			}
+			fv := s.Obj().(*types.Var)
+			var p provSet
+			if typeName(mt.Key()) == "AlignedAddress" {
+				p = pe.of(ix.Index, 0)
+			} else if st := structOf(mt.Key()); st != nil && st.NumFields() == 2 {
+				// (core, line) keys; tables whose key also carries a request kind hold entries of several levels by design
+				for i := 0; i < st.NumFields(); i++ {
+					if typeName(st.Field(i).Type()) == "AlignedAddress" {
+						pe.fieldsNeutral = false
+						p = pe.fieldProv(st.Field(i), 0)
+						pe.fieldsNeutral = true
+						delete(p, "field")
+					}
+				}
+			}
+			if p == nil {
+				return true
+			}
+			if keyTags[fv] == nil {
+				keyTags[fv] = provSet{}
+				keyPos[fv] = ix.Pos()
+			}
+			keyTags[fv].add(p)
+			return true
+		})
+	}
+	var kf []*types.Var
+	for fv := range keyTags {
+		kf = append(kf, fv)
+	}
+	sort.Slice(kf, func(i, j int) bool { return kf[i].Name() < kf[j].Name() })
+	for _, fv := range kf {
+		p := keyTags[fv]
+		aligns := 0
+		bad := false
+		for k := range p {
+			switch {
+			case strings.HasPrefix(k, "align:"):
+				aligns++
+			case k == "boundary", k == "field":
+			default:
+				bad = true
+			}
+		}
+		r.check(aligns == 1 && !bad, rule, fmt.Sprintf("%s:table(%s)", v.rel, fv.Name()), keyPos[fv], "every key of the per-line table %s comes from one alignment function (or a line boundary); provenance of the keys: {%s}", fv.Name(), p)
+	}
 }
